@@ -104,6 +104,9 @@ class Telnetd::Impl : public Connection {
 
     std::map<SessionToken, TcpServer::ConnToken> session_to_client_;
     std::map<TcpServer::ConnToken, SessionToken> client_to_session_;
+
+    //! disconnect tasks waiting in the loop: they use this object, ~Impl() cancels them
+    std::map<SessionToken, Loop::RunId> end_session_tasks_;
 };
 
 }
